@@ -1749,7 +1749,12 @@ class PseudoNetCDFFile(PseudoNetCDFSelfReg, object):
                         newvals = getattr(newvals, dfunc)(
                             axis=di, keepdims=True)
                     else:
+                        oldndim = np.ndim(newvals)
                         newvals = np.apply_along_axis(dfunc, di, newvals)
+                        if np.ndim(newvals) < oldndim:
+                            # func1d returned a scalar (np.max): the axis
+                            # stays, with length 1
+                            newvals = np.expand_dims(newvals, di)
             newvaro = outf.copyVariable(varo, key=vark, withdata=False,
                                         dtype=np.asarray(newvals).dtype)
             newvaro[...] = newvals
